@@ -377,16 +377,19 @@ func c13Reconnecting(c *Ctx) {
 	if c.Thorough() {
 		f = 2
 	}
-	faults := env.FaultSet{GoSilent: true}
+	// GoSilent: the peer stops answering; Stall (at a PINGREQ): it also stops reading, so that the
+	// next Write of the application blocks while the ping is outstanding
+	faults := env.FaultSet{GoSilent: true, Stall: true, StallTypes: map[byte]bool{env.PINGREQ: true}}
 	wls := [][]rcReq{
 		{},
+		{{Kind: "p0", Tag: "m0", Phase: 'U'}},
 		{{Kind: "p1", Tag: "m1", Phase: 'S'}},
 		{{Kind: "p1", Tag: "m1", Phase: 'T'}},
 		{{Kind: "sub", Subs: []string{"a:1"}, Phase: 'S'}, {Kind: "p2", Tag: "m2", Phase: 'T'}},
 	}
-	c.Bound("reconnecting", fmt.Sprintf("ReconnectClient with PingInterval %v, Timeout %v, no ResponseTimeout; the broker goes silent for good (link stays up) at any client packet (CONNECT, PINGREQ, PUBLISH, ...), F<=%d; workloads: idle, one publish, a publish after 15 s, subscribe + QoS 2 publish after 15 s; S<=1; exact virtual time", interval, timeout, f))
+	c.Bound("reconnecting", fmt.Sprintf("ReconnectClient with PingInterval %v, Timeout %v, no ResponseTimeout; the broker goes silent for good (link stays up) at any client packet (CONNECT, PINGREQ, PUBLISH, ...), F<=%d; workloads: idle, a QoS 0 publish at 11 s (while the first ping is outstanding), one publish, a publish after 15 s, subscribe + QoS 2 publish after 15 s; at a PINGREQ the peer may also stop reading (the next Write blocks until the client closes the transport); S<=1; exact virtual time", interval, timeout, f))
 	var sample *rcRun
-	for wi0, reqs := range append(wls, wls[0], wls[1]) {
+	for wi0, reqs := range append(wls, wls[0], wls[2]) {
 		reqs := reqs
 		wi := wi0
 		// the last two runs configure keep-alive only through the CONNECT option WithKeepAlive(10):
